@@ -494,7 +494,7 @@ def run_C12(run):
     q = run.tier == "quick"
     # the abstract API machine itself (MC_Api.tla): protocol properties of the SPECIFICATION for all interleavings of two
     # iterators, and the session validator accepts every behaviour the abstract machine can show
-    combos = [("seq", 1, 1), ("once", 3, 2), ("set", 4, 7)] if q else [(m, e, d) for m in ("seq", "once", "set") for e in (1, 2, 3, 4) for d in (1, 7)]
+    combos = [("seq", 1, 1), ("once", 3, 2), ("set", 4, 3)] if q else [(m, e, d) for m in ("seq", "once", "set") for e in (1, 2, 3, 4) for d in (1, 3)]
     for mode, ex, doc in combos:
         run.tlc("MC_Api", {"MaxIters": 2, "MaxCalls": 7 if q else 8, "Mode": mode, "DocId": doc, "ExprId": ex},
                 invariants=("GivenInTarget", "OnceNoDup", "CompleteAtFalse", "SeqOrder", "Purity", "ValidatorAcceptsSpec"),
